@@ -56,6 +56,11 @@ N('H-property-vs-slot', ['C10'], 'series.py', 'Series.equals',
 N('H-identity-is', ['C10'], 'index.py', 'Index.equals',
   'if id(other) == id(self):', 'if other is self:')
 
+B('H6-memo-one-sided', ['C10'], 'index_level.py', 'IndexLevel.equals',
+  'pair = (id(level_self.index), id(level_other.index))', 'pair = id(level_self.index)', 'H6', 'IndexLevel.equals')
+N('H6-memo-pair-swapped', ['C10'], 'index_level.py', 'IndexLevel.equals',
+  'pair = (id(level_self.index), id(level_other.index))', 'pair = (id(level_other.index), id(level_self.index))')
+
 # ---------------------------------------------------------------------------------- B (C02, C05, C09, C19)
 B('B-index-values-guard', ['C02', 'C09'], 'index.py', 'Index.values',
   'if self._recache:\n            self._update_array_cache()\n        return self._labels', 'return self._labels', 'B.recache[Index]', 'Index.values')
